@@ -314,7 +314,8 @@ class JobContext(object):
                 self.path_reasons["cut: " + str(val)] += 1
             return
         if kind != "ok":
-            self.path_reasons["%s: %s" % (kind, str(val)[:300])] += 1
+            txt = str(val)
+            self.path_reasons["%s: %s" % (kind, txt if len(txt) <= 300 else txt[:120] + " [...] " + txt[-600:])] += 1
             return
         n = self.paths["ok"]
         if self.validate_every and (n <= 3 or n % self.validate_every == 0):
